@@ -572,8 +572,10 @@ func (p *prog) declStr() string {
 var hdrRe = regexp.MustCompile(`^goroutine \d+ \[([^\],]*)`)
 
 // caseBlocked: (found, allBlocked) over the goroutines whose stack mentions one of the markers.
+var stackBuf = make([]byte, 1<<20)
+
 func caseBlocked(markers []string) (int, bool) {
-	buf := make([]byte, 1<<20)
+	buf := stackBuf
 	n := runtime.Stack(buf, true)
 	blocks := strings.Split(string(buf[:n]), "\n\n")
 	found := 0
@@ -605,6 +607,12 @@ func caseBlocked(markers []string) (int, bool) {
 		if st != "chan send" && st != "chan receive" {
 			all = false
 		}
+		if strings.Contains(b, "machineSummary") {
+			// building the machine after the compiler's goroutines have finished: the worker waits (on a
+			// channel) for the goroutine that captures the package's stdout, which is not a goroutine of
+			// the case; that is work in progress, not a dead-lock
+			all = false
+		}
 	}
 	return found, all
 }
@@ -613,7 +621,7 @@ func caseBlocked(markers []string) (int, bool) {
 // blocked on channels in two consecutive dumps, "timeout" after the overall deadline.
 func waitDone(done chan struct{}, markers []string) string {
 	deadline := time.Now().Add(20 * time.Second)
-	tick := 500 * time.Microsecond
+	tick := 2 * time.Millisecond
 	strikes := 0
 	for {
 		select {
@@ -621,7 +629,7 @@ func waitDone(done chan struct{}, markers []string) string {
 			return ""
 		case <-time.After(tick):
 		}
-		if tick < 4*time.Millisecond {
+		if tick < 16*time.Millisecond {
 			tick *= 2
 		}
 		found, all := caseBlocked(markers)
@@ -753,7 +761,7 @@ func compileWorker(f *ast.File, config *bondgo.BondgoConfig, res *compRes, mu *s
 		// emitted program assembled for it (errors are printed to stdout by the package: captured)
 		setPhase("machine")
 		mach := ""
-		if wantMachine {
+		if wantMachine && os.Getenv("C12_NOMACH") == "" {
 			mach = machineSummary(bgmain, int(config.Rsize))
 		}
 		mu.Lock()
@@ -888,6 +896,10 @@ func sortStrings(a []string) {
 func emitCompiles(id int, src string, w, steps, salt int, extraSched string) {
 	var first *compRes
 	ss := append([]string{}, scheds...)
+	if v := os.Getenv("C12_SCHEDS"); v != "" {
+		ss = strings.Split(v, ",")
+		extraSched = ""
+	}
 	if extraSched != "" {
 		ss = append(ss, extraSched)
 	}
